@@ -1,4 +1,4 @@
-import TlxVerif.Gen.C15Networks
+import TlxVerif.Model.C15Tables
 import TlxVerif.Proofs.C15BitParallel
 /-!
 # C15 — the three sorting-network families sort every input of up to 16 elements
@@ -16,24 +16,6 @@ executes (recorded through tlx's own `CS_IfSwap` with a recording comparator).
   sorts every input over every strict weak order, directly and through the size dispatch.
 -/
 namespace TlxVerif.C15
-
-inductive Family | best | boseNelson | boseNelsonParameter
-  deriving DecidableEq, Repr
-
-inductive Entry | direct | dispatch
-  deriving DecidableEq, Repr
-
-/-- the generated comparator tables, by family and entry point (index = number of elements) -/
-def table : Family → Entry → List Net
-  | .best, .direct => Gen.bestDirect
-  | .best, .dispatch => Gen.bestDispatch
-  | .boseNelson, .direct => Gen.boseNelsonDirect
-  | .boseNelson, .dispatch => Gen.boseNelsonDispatch
-  | .boseNelsonParameter, .direct => Gen.boseNelsonParameterDirect
-  | .boseNelsonParameter, .dispatch => Gen.boseNelsonParameterDispatch
-
-/-- the comparator sequence executed for `n` elements (`[]` beyond the table) -/
-def network (f : Family) (e : Entry) (n : Nat) : Net := (table f e).getD n []
 
 /-- the finite check of one table: 17 entries, each in range and sorting all zero-one inputs -/
 def tableOK (t : List Net) : Bool :=
